@@ -107,6 +107,19 @@ def check_ledger(res, name, src):
             if any(abs(p.units.number) > Decimal('0.005') for p in inv):
                 res.violation('h13:transaction-balances', 'every returned transaction still balances', {'ledger': name, 'clause': clause}, inv, 'empty')
                 break
+        # (d') with CLOSE the returned postings add up to zero (conversions are balanced by the equity entry CLOSE inserts)
+        if e is not None:
+            tot = inventory.Inventory()
+            for r in rows:
+                tot.add_amount(r[4])
+            if any(abs(p.units.number) > Decimal('0.005') for p in tot):
+                res.violation('h13:close-period-balances', 'after CLOSE the weights of the returned postings add up to zero (currency conversions carried by Equity)', {'ledger': name, 'clause': clause}, tot, 'empty')
+        # (d'') a CLOSE date after the last directive presents the same postings as CLOSE without a date
+        if isinstance(e, date) and e > max(x.date for x in entries):
+            clause2 = clause.replace(f' CLOSE ON {e.isoformat()}', ' CLOSE')
+            rows2 = conn.execute(f'SELECT id, date, account, position, weight FROM{clause2}').fetchall()
+            if sorted((r[2], str(r[3])) for r in rows) != sorted((r[2], str(r[3])) for r in rows2):
+                res.violation('h13:close-after-end', 'CLOSE ON a date after the ledger end equals CLOSE at the ledger end', {'ledger': name, 'clause': clause}, len(rows), len(rows2))
         # (e) clauses apply independently of the filter expression
         for expr, fn in (("year = 2020", lambda r: r[1].year == 2020), ("account ~ 'Assets'", lambda r: 'Assets' in r[2])):
             q2 = f'SELECT id, date, account, position, weight FROM {expr}{clause}'
